@@ -237,6 +237,29 @@ def run(ctx):
     rm = [pos for pos, t in rff.iter_calls() if call_matches(t, r'HashSet::<T, S.*>::remove$') and 'ElementRaw.file_membership' in deep_sources(rff, t['args'][0], depth=12)[2]]
     okrm = bool(rm) and any(any(p[0] in body for p in rm) and any(q[0] in body for q in calls(rff, ITER_RX)) for h, body in rff.natural_loops())
     C.check(okrm, 'C10-MUST-remove', 'remove_from_file|sub-elements-lose-the-file', 'remove_from_file does not remove the file from the file sets of restricted sub elements (walk over elements_dfs)', '%s:%d' % (rff.file, rff.line))
+    # ... and the walk over the sub elements follows the element's own store on every Ok path (a sub element may carry its own, smaller
+    # set whether or not the element's set was inherited: sets are also assigned by merging files)
+    own_st = [pos for pos, s_ in rff.iter_stmts() if s_['k'] == 'assign' and ends_in_field(s_['dst'], 'ElementRaw.file_membership') and not E.loops_containing(rff, [pos])]
+    walk_ = [q for q in calls(rff, ITER_RX) if E.loops_containing(rff, [q]) and any(any(p[0] in body for p in rm) and q[0] in body for h, body in rff.natural_loops())]
+    okw = bool(own_st) and bool(walk_) and all(must_pass(rff, s_, E.ok_exit_positions(rff), through=set(walk_), include_start=False) for s_ in own_st)
+    C.check(okw, 'C10-MUST-remove', 'remove_from_file|walk-follows-the-own-store-on-every-path', 'remove_from_file can return Ok after restricting the element itself without walking over its sub elements (an early return, e.g. when the set was inherited): '
+            'a sub element that carries its own set keeps the removed file although its parent is no longer in it', rff.where(own_st[0]) if own_st else '%s:%d' % (rff.file, rff.line),
+            sample={'fn': 'remove_from_file', 'after_own_store': 'loop over elements_dfs on every Ok path'})
+    # set_file_membership(empty set) always resets - whatever the element's parent is (remove_file relies on it for the root element)
+    sfm = P.find('Element::set_file_membership')
+    if sfm is None:
+        C.anchor_missing('C10-MUST-remove', 'Element::set_file_membership')
+    else:
+        iem = [pos for pos, t in sfm.iter_calls() if call_matches(t, r'HashSet::<T, S.*>::is_empty$') and t['args'] and 2 in __import__('flow').source_locals(sfm, t['args'][0], depth=8)]
+        rets = [pos for pos, t in sfm.iter_terms() if t['k'] == 'return']
+        st_ = [pos for pos, s_ in sfm.iter_stmts() if s_['k'] == 'assign' and ends_in_field(s_['dst'], 'ElementRaw.file_membership')]
+        okr = bool(iem) and bool(rets) and bool(st_) and all(must_pass(sfm, (0, 0), [r_], through=set(iem)) for r_ in rets)
+        if okr:
+            sw_ = switch_edges_on_call_result(sfm, iem[0])
+            okr = bool(sw_) and all(must_pass(sfm, (sw_[2], 0), [r_], through=set(st_)) for r_ in rets)
+        C.check(okr, 'C10-MUST-remove', 'set_file_membership|empty-set-always-resets', 'set_file_membership can return without having looked at "is the new set empty" (an early return for some elements, e.g. the root): '
+                'the reset of the root element\'s file set that remove_file relies on is skipped, and the next create_file attributes the whole model to a file that is gone', '%s:%d' % (sfm.file, sfm.line),
+                sample={'fn': 'set_file_membership', 'is_empty_test_dominates_every_return': okr})
     # an element whose set became empty is deleted: the push/remove is guarded by is_empty true edge (tested AFTER the removal)
     cops = E.content_ops(rf)
     clears = [o for o in cops if o['op'] == 'clear']
